@@ -3,6 +3,8 @@ import Driver.Stages
 import Driver.Select
 import Driver.Compile
 import Driver.Resolve
+import Driver.WireJ
+import Driver.TiiJ
 
 def main (args : List String) : IO UInt32 := do
   match args with
@@ -21,6 +23,9 @@ def main (args : List String) : IO UInt32 := do
       | .str "resolve" => Driver.Resolve.judgeTotal j
       | _ => Driver.Compile.judge "C14" j)
     return 0
+  | ["C11"] => Driver.runJudge Driver.WireJ.judgeC11; return 0
+  | ["C17"] => Driver.runJudge Driver.TiiJ.judge; return 0
+  | ["C18"] => Driver.runJudge Driver.WireJ.judgeC18; return 0
   | ["C05"] => Driver.runJudge Driver.Resolve.judgeC05; return 0
   | ["C20"] => Driver.runJudge Driver.Resolve.judgeC20; return 0
   | ["C06"] => Driver.runJudge (Driver.Stages.judge "C06"); return 0
